@@ -569,6 +569,70 @@ fn race_unlink(inst: &Inst, io: &Io, op: &[&str], orc: &mut Vec<(String, String)
     res
 }
 
+/// `cup,<request>`: the request runs on this thread, parked at the first layer `forget` it
+/// causes (a copy-up drops the lower real inodes of the node it has just given an upper one);
+/// meanwhile a second client LOOKs the target UP and GETATTRs it.  The request is booked alone;
+/// the observer must find the object (with its old or its new attributes): an object that exists
+/// before and after the request never disappears in between.
+fn observed_op(inst: &Inst, io: &Io, op: &[&str], orc: &mut Vec<(String, String)>, stats: &mut Vec<String>) -> String {
+    let path = op[1].to_string();
+    let pre = resolve(inst, &path).is_ok();
+    let (entered_tx, entered_rx) = sync_channel::<()>(1);
+    let (go_tx, go_rx) = sync_channel::<()>(1);
+    *inst.gate.lock().unwrap() = Some((entered_tx, go_rx));
+    let done = std::sync::atomic::AtomicBool::new(false);
+    let mut res = String::new();
+    let mut seen: Option<Result<(), String>> = None;
+    let mut parked = false;
+    std::thread::scope(|sc| {
+        let (done, path) = (&done, &path);
+        let obs = sc.spawn(move || {
+            let t0 = std::time::Instant::now();
+            let mut parked = false;
+            while t0.elapsed() < Duration::from_secs(60) {
+                if entered_rx.try_recv().is_ok() {
+                    parked = true;
+                    break;
+                }
+                if done.load(Ordering::SeqCst) {
+                    break;
+                }
+                std::thread::sleep(Duration::from_micros(200));
+            }
+            // the read itself on a helper thread: it may have to wait for the node's lock
+            let h = sc.spawn(move || {
+                std::panic::catch_unwind(std::panic::AssertUnwindSafe(|| match resolve(inst, path) {
+                    Ok((ino, _)) => inst.fs.getattr(&Context::default(), ino, None).map(|_| ()).map_err(|e| errno(&e)),
+                    Err(e) => Err(e),
+                }))
+                .unwrap_or_else(|_| Err("panic".to_string()))
+            });
+            let t1 = std::time::Instant::now();
+            while !h.is_finished() && t1.elapsed() < Duration::from_millis(25) {
+                std::thread::sleep(Duration::from_micros(200));
+            }
+            let _ = go_tx.send(());
+            (parked, h.join().unwrap_or_else(|_| Err("panic".to_string())))
+        });
+        SLOW.with(|s| s.set(true));
+        res = do_op(inst, io, op, orc);
+        SLOW.with(|s| s.set(false));
+        done.store(true, Ordering::SeqCst);
+        if let Ok((p, r)) = obs.join() {
+            parked = p;
+            seen = Some(r);
+        }
+    });
+    *inst.gate.lock().unwrap() = None;
+    stats.push(format!("cup:{}", if parked { "request-parked" } else { "no-park" }));
+    let post = resolve(inst, &path).is_ok();
+    if let (true, true, Some(Err(e))) = (pre, post, &seen) {
+        orc.push(("C10:concurrent-read:vanished-during-copy-up".into(),
+                  format!("`{}` exists before and after `{}`, but a LOOKUP+GETATTR issued while the request was in flight answered {}", path, op.join(","), e)));
+    }
+    res
+}
+
 fn oflags(s: &str) -> i32 {
     match s {
         "r" => libc::O_RDONLY,
@@ -1095,6 +1159,11 @@ fn exec(line: &str, base: &str) -> CaseOut {
             op[0] = "unlink";
             out.stats.push("op:race".to_string());
         }
+        let observed = op[0] == "cup" && op.len() > 2;
+        if observed {
+            op.remove(0);
+            out.stats.push("op:cup".to_string());
+        }
         let name = op[0];
         out.stats.push(format!("op:{}", name));
         if name == "fwalk" {
@@ -1112,7 +1181,13 @@ fn exec(line: &str, base: &str) -> CaseOut {
         let before = scan_layers(base);
         inst.log.lock().unwrap().clear();
         let mut orc: Vec<(String, String)> = Vec::new();
-        let res = if racing { race_unlink(&inst, &io, &op, &mut orc, &mut out.stats) } else { do_op(&inst, &io, &op, &mut orc) };
+        let res = if racing {
+            race_unlink(&inst, &io, &op, &mut orc, &mut out.stats)
+        } else if observed {
+            observed_op(&inst, &io, &op, &mut orc, &mut out.stats)
+        } else {
+            do_op(&inst, &io, &op, &mut orc)
+        };
         let calls: BTreeSet<String> = inst.log.lock().unwrap().iter().map(|(i, m)| format!("{}:{}", i, m)).collect();
         let raw_calls: Vec<(usize, &'static str)> = inst.log.lock().unwrap().clone();
         out.stats.push(format!("res:{}:{}", name, if res.starts_with("ok") { "ok" } else { res.as_str() }));
@@ -1475,8 +1550,11 @@ fn gen_case(r: &mut Prng, prop: &str) -> String {
         } else {
             "walk".to_string()
         };
+        // a second client reads the target while the request (and its copy-up) is in flight
+        let o = if up && matches!(o.split(',').next().unwrap_or(""), "chmod" | "truncate" | "setx" | "rmx" | "open" | "write") && r.chance(1, 3) { format!("cup,{}", o) } else { o };
+        let o_inner = o.strip_prefix("cup,").unwrap_or(&o).to_string();
         // names created by this history become interesting targets for later ops
-        let f: Vec<&str> = o.split(',').collect();
+        let f: Vec<&str> = o_inner.split(',').collect();
         if matches!(f[0], "create" | "mkdir" | "mknod" | "symlink") && !known.contains(&f[1].to_string()) {
             known.push(f[1].to_string());
             if f[0] == "mkdir" {
